@@ -990,7 +990,9 @@ func (path *Path) SetLargeCommunities(cs []*bgp.LargeCommunity, doReplace bool) 
 		path.setPathAttr(bgp.NewPathAttributeLargeCommunities(cs))
 	} else {
 		l := a.(*bgp.PathAttributeLargeCommunities).Values
-		path.setPathAttr(bgp.NewPathAttributeLargeCommunities(append(l, cs...)))
+		// Concat rather than append, so growing this path's list cannot write
+		// into the backing array of an attribute shared with another path.
+		path.setPathAttr(bgp.NewPathAttributeLargeCommunities(slices.Concat(l, cs)))
 	}
 }
 
